@@ -436,6 +436,10 @@ def run(rep, tier):
     C05.check_conflict_terms(rep, 'R18.6', fbt)
     C05.check_exit_set_vocabulary(rep, 'R18.6', fbt)
     _domain.check(rep, 'R18.6', fbt, [fbt.fn('uscxml::getTransitionDomain'), fbt.fn('uscxml::findLCCA')], 'Predicates')
+    from ..report import Renamed
+    from . import C12
+    C05.audit_rules(Renamed(rep, {'R05.8': 'R18.8'}), fbt)
+    C12.vhdl_names(rep, 'R18.9')
     ms = fb.fn(CLS + '::writeMicroStepper')
     called = {n.get('callee', {}).get('q', '').split('::')[-1] for n in ms.walk() if n['k'] == 'CXXMemberCallExpr'}
     for w in WRITERS:
